@@ -1,6 +1,6 @@
 #!/bin/bash
 # thorough_trial.sh [ids...]: runs the thorough tier of each check with a short per-scenario deadline and records rc + summary
-D="$(cd "$(dirname "$0")/.." && pwd)"
+D="$(cd "$(dirname "$0")/.." && pwd)"; export VERIF_DIR="$D"
 LOG="${TRIAL_LOG:-/tmp/thorough-trial.log}"
 DL="${TRIAL_DEADLINE:-30}"
 ids=("$@"); [ ${#ids[@]} -eq 0 ] && ids=(C01 C02 C03 C04 C05 C06 C07 C08 C09 C10 C11 C12 C13 C14 C15 C16 C17 C18 C19 C20)
